@@ -119,3 +119,70 @@ fn verif_native_vector_identity_witness() {
         println!("VERIF-NATIVE: disagree {}", bad.join(" ; "));
     }
 }
+
+#[test]
+fn verif_native_after_error_witness() {
+    // C08, last sentence: after a run-time error the interpreter keeps exactly the effects completed before it and
+    // evaluates later forms normally.  8 fault kinds x 5 calling contexts, each as [setup, faulting form, probes].
+    std::panic::set_hook(Box::new(|_| {}));
+    let faults: [(&str, &str); 8] = [
+        ("(5 1)", "TypeMisMatch"),                       // call of a non-procedure
+        ("(two 1)", "ArgumentMissMatch"),                // wrong argument count
+        ("nosuch", "UnboundedSymbol"),                   // unbound variable read
+        ("(set! nosuch 1)", "UnboundedSymbol"),          // unbound variable assigned
+        ("(car 5)", "TypeMisMatch"),                     // wrong argument type
+        ("(vector-ref vec 3)", "VectorIndexOutOfBounds"),
+        ("(vector-set! #(1 2) 0 9)", "RequiresMutable"),
+        ("(/ 1 0)", "DivisionByZero"),
+    ];
+    let contexts: [&str; 5] = [
+        "FAULT",                                            // direct, top level
+        "(define (t) FAULT) (t)",                          // tail call position of a user procedure
+        "(apply (lambda () FAULT) '())",                   // through apply
+        "(car (map (lambda (x) FAULT) '(1)))",             // from a library procedure
+        "(begin (set! counter (+ counter 1)) (set! counter (+ counter (car (cons FAULT 1)))))", // after one completed effect
+    ];
+    let setup = "(define counter 10) (define vec (vector 1 2 3)) (define (two a b) a)";
+    let mut n = 0;
+    let mut bad: Vec<String> = Vec::new();
+    for (fault, kind) in faults.iter() {
+        for (ci, ctx) in contexts.iter().enumerate() {
+            n += 1;
+            let program = ctx.replace("FAULT", fault);
+            let r = std::panic::catch_unwind(|| {
+                let mut it = Interpreter::<f32>::new_with_stdlib();
+                let s = it.eval(setup.chars()).is_ok();
+                let got = match it.eval(program.chars()) {
+                    Ok(v) => format!("value {}", v.map(|v| v.to_string()).unwrap_or_default()),
+                    Err(e) => match e.data {
+                        ErrorData::Logic(LogicError::TypeMisMatch(..)) => "TypeMisMatch".to_string(),
+                        ErrorData::Logic(LogicError::ArgumentMissMatch(..)) => "ArgumentMissMatch".to_string(),
+                        ErrorData::Logic(LogicError::UnboundedSymbol(..)) => "UnboundedSymbol".to_string(),
+                        ErrorData::Logic(LogicError::VectorIndexOutOfBounds) => "VectorIndexOutOfBounds".to_string(),
+                        ErrorData::Logic(LogicError::RequiresMutable(..)) => "RequiresMutable".to_string(),
+                        ErrorData::Logic(LogicError::DivisionByZero) => "DivisionByZero".to_string(),
+                        other => format!("other error: {}", other),
+                    },
+                };
+                // later forms: earlier definitions intact, effects before the fault kept, nothing after it done
+                let counter = it.eval("counter".chars()).map(|v| v.map(|v| v.to_string()).unwrap_or_default()).unwrap_or_else(|e| format!("error {}", e));
+                let later = it.eval("(define later (+ (vector-ref vec 2) (two 4 5))) later".chars()).map(|v| v.map(|v| v.to_string()).unwrap_or_default()).unwrap_or_else(|e| format!("error {}", e));
+                (s, got, counter, later)
+            });
+            match r {
+                Err(_) => if bad.len() < 4 { bad.push(format!("{:?} PANICS", program)); },
+                Ok((s, got, counter, later)) => {
+                    let want_counter = if ci == 4 { "11" } else { "10" };
+                    if (!s || got != *kind || counter != want_counter || later != "7") && bad.len() < 4 {
+                        bad.push(format!("{:?} -> {} (expected {}), afterwards counter = {} (expected {}), a later form = {} (expected 7)", program, got, kind, counter, want_counter, later));
+                    }
+                }
+            }
+        }
+    }
+    if bad.is_empty() {
+        println!("VERIF-NATIVE: ok {} fault programs (8 kinds x 5 calling contexts): the error has its kind, effects before it are kept, later forms evaluate normally", n);
+    } else {
+        println!("VERIF-NATIVE: disagree {}", bad.join(" ; "));
+    }
+}
